@@ -348,6 +348,29 @@ theorem marginalRaw_entry_serial (ps : List Rat) (shape keep : List Nat) (hlen :
 
 example : (marginalRaw [1/8, 1/8, 1/4, 1/2] [2, 2] [1]).2[1]? = some (1/8 + 1/2) := by decide +kernel
 
+/-- C16.g (entries) the raw conditional slice in terms of SERIAL positions of the joint tensor: it lists, in ascending serial order,
+the joint entries `ps[s]` whose multi-index (index map of C16.a) agrees with the conditioning assignment -/
+theorem conditionalRaw_entries_serial (ps : List Rat) (shape idxs vals : List Nat) (hlen : ps.length = prod shape) :
+    (conditionalRaw ps shape idxs vals).2 =
+      (List.range (prod shape)).filterMap fun s =>
+        match multiFromSerial shape s, ps[s]? with
+        | some mi, some p => if matchesCond mi idxs vals then some p else none
+        | _, _ => none := by
+  unfold conditionalRaw
+  simp only
+  rw [zip_eq_range_map _ _ (by rw [allMulti_length, hlen]), List.filterMap_filterMap, allMulti_length]
+  apply filterMap_congr'
+  intro s hs
+  have hs' : s < prod shape := by simpa using hs
+  rw [(allMulti_is_serial_layout shape s hs').1]
+  cases hm : multiFromSerial shape s with
+  | none => simp
+  | some mi =>
+    cases hp : ps[s]? with
+    | none => simp
+    | some p => simp
+example : (conditionalRaw [1/8, 1/8, 1/4, 1/2] [2, 2] [0] [1]).2 = [1/4, 1/2] := by decide +kernel
+
 /-! ## what the constructor stores -/
 
 /-- C16.e (entries) a successfully constructed distribution stores the thresholded entries — unchanged when nothing was below the
